@@ -194,6 +194,13 @@ def run_server(fr, has_pub, raises, lenreq):
     class H(BaseRequestHandler):
         async def on_setup(self, data_encoding, metadata_encoding, payload):
             calls.append((bytes(data_encoding), bytes(metadata_encoding), bytes(payload.metadata or b''), bytes(payload.data or b'')))
+            if raises == 'protocol':        # any exception out of on_setup rejects the setup, whatever its own code
+                from rsocket.exceptions import RSocketProtocolError
+                from rsocket.error_codes import ErrorCode
+                raise RSocketProtocolError(ErrorCode.APPLICATION_ERROR, data='not for you')
+            if raises == 'inuse':
+                from rsocket.exceptions import RSocketStreamIdInUse
+                raise RSocketStreamIdInUse(7)
             if raises:
                 raise RuntimeError('rejected by application')
 
@@ -330,7 +337,7 @@ def correspond(ctx, corr, model_ok):
             fr['sid'] = 0 if rng.random() < 0.85 else 3
             fr['ign'] = False
             fr['token'] = fr['token'][:16]
-        has_pub, raises = rng.random() < 0.5, rng.random() < 0.35
+        has_pub, raises = rng.random() < 0.5, rng.choice([False, False, False, True, 'protocol', 'inuse'])
         calls, sent, nsubs = run_server(fr, has_pub, raises, rng.random() < 0.5)
         corr.evaluations += 1
         o = oracle_server(fr, has_pub, raises, calls, sent, nsubs)
@@ -353,7 +360,7 @@ def correspond(ctx, corr, model_ok):
             corr.disagreements.append({'what': 'server reaction outside the model', 'frame': fr, 'calls': calls,
                                        'sent': sent})
             continue
-        items.append(('CServer %s %s %s (%s)' % (FR.coq_frame(fr), cbool(has_pub), cbool(raises), obs),
+        items.append(('CServer %s %s %s (%s)' % (FR.coq_frame(fr), cbool(has_pub), cbool(bool(raises)), obs),
                       {'kind': 'server', 'frame': fr, 'has_pub': has_pub, 'raises': raises, 'impl': obs}))
     corr.rule = ('(a) client configurations: periods with whole-ms / .499/.500/.501 ms / random microsecond parts, encodings as '
                  'str / bytes / enum member, payload or none, lease on/off, both framings; (b) connect with provider and '
